@@ -529,3 +529,41 @@ def merge_key_rule(R, oid):
                            'different groupings of the same items (two constraints vs one with two options; different argument lists) give the same key and are merged',
                            site(cx, s))
     R.need(n_data >= 5 and n_loops >= 2, f'pattern_movement: only {n_data} stored values / {n_loops} nested lists recognised')
+
+
+def digest_strip_types(R, oid, cx):
+    """the component types for which `cx` drops the last component of a name before matching must be exactly {ImplicitSha256Digest}: the implicit
+    digest is not part of the name a schema describes, every other component (also the parameters digest) is"""
+    import ast
+    from .common import site, full_text, inline_ast
+    from ..loader import NOVALUE
+    P = R.P
+    n = 0
+    for t in cx.cfg.nodes:
+        if t.kind != 'test' or not isinstance(t.ast, ast.Compare) or len(t.ast.ops) != 1 or 'get_type(' not in full_text(cx, t.ast):
+            continue
+        e = inline_ast(cx, t.ast)
+        op, comp = e.ops[0], e.comparators[0]
+        if 'get_type(' not in ast.unparse(e.left):
+            if 'get_type(' in ast.unparse(comp) and isinstance(op, (ast.Eq, ast.NotEq)):
+                comp = e.left
+            else:
+                continue
+        v = P.const_value(cx.f.mod, comp)
+        if v is NOVALUE:
+            try:
+                from ..fold import Folder
+                v = Folder(P, cx.f.mod).ev(comp, {})
+            except Exception:
+                raise AnalysisError(f'{cx.qual}: cannot fold the component type(s) in `{ast.unparse(t.ast)}`')
+        types = {v} if isinstance(v, int) else set(v)
+        n += 1
+        inst = f'{cx.qual} :: `{ast.unparse(t.ast)[:60]}` drops the implicit digest only'
+        if types == {1}:
+            R.ok(oid, inst, site(cx, t.ast))
+        else:
+            extra = sorted(types - {1})
+            R.fail(oid, inst, cx.qual, t.ast, f'the last component is dropped for component type(s) {sorted(types)}, not for the implicit digest (type 1) only'
+                   + (f': type {extra[0]}' + (' (ParametersSha256Digest)' if extra[0] == 2 else '') + ' is an ordinary component of the name a rule describes - '
+                      'a name one component longer than the rule matches, and a rule with a pattern at that place no longer does' if extra else ''), site(cx, t.ast))
+    return n
